@@ -9,7 +9,7 @@ func init() {
 		depth, budget := 3, 240*time.Second
 		grid := TopNGrid([]int64{1, 2, 3, 5, 8}, 5)
 		if tier == "thorough" {
-			depth, budget = 5, 30*time.Minute
+			depth, budget = 5, 20*time.Minute
 			grid = TopNGrid([]int64{1, 2, 3, 4, 5, 8, 13}, 7)
 		}
 		us := []Unit{grid}
